@@ -317,12 +317,16 @@ MANIFEST = {
     "technique": "Lean 4 invariant of the back-propagation loop (every stored gradient has its tensor's shape and size) and "
                  "seed lemmas on the engine model + differential seeding oracle on random programs + shape/dtype predicate over "
                  "ops and nnet layers in float16/32/64",
-    "text": "Proved on the engine model for all programs: the default seed is the VJP of sum, an array seed is the VJP of "
-            "(L*g).sum(), a seed that does not broadcast to L's shape is rejected before any gradient is written, and every "
-            "gradient the loop stores has exactly its tensor's shape and element count (stored_grads_have_tensor_shape, by "
-            "induction over the loop). The implementation is compared with the model on random programs, and the three seeding "
-            "identities and the shape/dtype/type predicate are evaluated directly on MyGrad, including 0-d tensors, float16/32 "
-            "and the nnet layers and losses.",
+    "text": "Proved on the engine model for all programs: the default seed is exactly what sum's VJP sends to L "
+            "(seed_none_is_vjp_of_sum); a well-formed g of L's shape is used as is, any other g is broadcast iff "
+            "it broadcasts TO L's shape and is otherwise rejected with ValueError (seed_rule, seed_shape); on "
+            "rejection no gradient is written — every _grad is what it was or None, no buffer or op changes "
+            "(bad_seed_rejected_no_write); every gradient the completed loop has accumulated has exactly its "
+            "tensor's shape and element count, whatever mixture of broadcasting, where-masks, views and repeated "
+            "use produced it (stored_grads_have_tensor_shape, by induction over the loop). The implementation is "
+            "compared with the model on random programs, and the three seeding identities and the "
+            "shape/dtype/type predicate are evaluated directly on MyGrad, including 0-d tensors, float16/32 and "
+            "the nnet layers and losses.",
     "note": "Trusted: Lean kernel, standard axioms, the correspondence harness. dtype is not part of the Int-valued model: the "
             "dtype clause is decided by the direct predicate only. Ops that override Operation.backward (GRU) are outside the "
             "generic path and are covered by the predicate (known finding for the GRU hidden-sequence gradient).",
